@@ -62,7 +62,7 @@ extern "C" int LLVMFuzzerTestOneInput(const uint8_t* data, size_t size) {
     FuzzedDataProvider fdp(data, size);
     int mode = fdp.ConsumeIntegralInRange<int>(0, 4); unsigned coin = fdp.ConsumeIntegralInRange<unsigned>(0, 2047);
     k.lenient = fdp.ConsumeBool(); bool allocfail = fdp.ConsumeBool(); unsigned mask = fdp.ConsumeIntegralInRange<unsigned>(0, 7); polyseed_enable_features(fdp.ConsumeBool() ? 7u : mask);
-    if (!k.live.empty()) oracle_fail("harness: live blocks at iteration start", data, size);
+    if (!k.live.empty()) { if (PROP == "C14") oracle_fail("a seed block of the previous call is still allocated", data, size); for (auto& b : k.live) free(b.first); k.live.clear(); }
     if (mode <= 2) {
         std::string s = mode == 0 ? fdp.ConsumeRemainingBytesAsString() : build_phrase(fdp, coin);
         dor::Result r; std::string m = dor::check(s, coin, allocfail, &r, /*c14_only=*/PROP != "C09");
